@@ -116,19 +116,19 @@ PROPS = {
     'C19': dict(
         title='Kinds, typed accessors and grid construction are coherent',
         verus=[('u_kinds', [r'^Value::is_', r'^Value::has_value$', r'^kind_from_value$', r'^try_from_value_for_', r'^lemma_exactly_one_kind$',
-                            r'^check_exactly_one_predicate$']),
+                            r'^check_exactly_one_predicate$', r'^kind_to_name$', r'^kind_from_name$']),
                ('u_getters', [r'^Dict::get_', r'^Dict::has_'])],
         kani=[dict(harness='k_kind_u8', klass='complete', schema=['u8'], family='kind-u8', target='HaystackKind::try_from(u8)'),
               dict(harness='k_kind_code_roundtrip', klass='complete', schema=['u8'], family='kind-u8', target='HaystackKind as u8'),
-              dict(harness='k_kind_name_roundtrip', klass='complete', schema=['u8'], family='kind-name', target='HaystackKind <-> &str'),
-              dict(harness='k_kind_name_injective', klass='bounded', bound='strings of at most 9 ASCII bytes (longest kind name: 8)',
-                   target='HaystackKind::try_from(&str)')],
+              dict(harness='k_kind_name_roundtrip', klass='complete', schema=['u8'], family='kind-name', target='HaystackKind <-> &str')],
         witness='enum:kinds-grid',
         design_ref='DESIGN.md section 4, C19',
         level_text=('Proof: Verus for all values (each of the 18 kind predicates equals kind_of(v) == K, exactly one is true, '
                     'From<&Value> for HaystackKind equals kind_of, each of the 20 TryFrom<&Value> conversions succeeds exactly for the '
                     'matching kind and returns the stored payload; each of the 14 typed Dict getters and 3 has_* tests succeeds exactly when the key is bound to a value of that kind and returns that payload); Kani complete over all 256 codes and all 18 kinds for the '
-                    'code and name tables.'),
+                    'code and name tables. The name table is also proved in Verus for strings of any length: kind_name is the list of Haystack kind names typed in from the '
+                    'specification; the real From<HaystackKind> for &str returns kind_name(k), and the real TryFrom<&str> returns Ok(k) only for kind_name(k) and for every kind '
+                    'name (so the table is a bijection; this replaces the former bounded Kani harness over strings of at most 9 bytes).'),
         not_decided=('Grid::make_from_dicts (HashSet, nested closures, sort_by: outside both tools); BTreeMap lookup itself (Dict::get is modelled by an uninterpreted function); '
                      'Display for HaystackKind agreeing with the name table (core::fmt).'),
         technique='contract-based deductive verification: Verus on extracted real bodies + Kani complete finite-domain harnesses',
